@@ -62,6 +62,25 @@ func c14(c *Ctx) {
 	}
 	nameEq, nameNe := nameEdgesIn(loop)
 
+	c.R.Rule("R14.6", "revisions are written under the optimistic lock of the listed copy", 1,
+		"the package reconciler decides from a List that may be stale; only a write that carries the listed resourceVersion is rejected when the revision changed meanwhile - an applicator that re-reads and overwrites activates a revision next to one that was activated since")
+	if ctor := c.fn("internal/controller/pkg/manager", "NewReconciler"); ctor != nil {
+		n, good := 0, true
+		for _, b := range ctor.Blocks {
+			for _, in := range b.Instrs {
+				if st, ok := in.(*ssa.Store); ok && isFieldSel(st.Addr, "resource.ClientApplicator", "Applicator") {
+					n++
+					if !flow.Strict.AnyCall(st.Val, xprt+"resource.NewAPIPatchingApplicator") {
+						good = false
+					}
+				}
+			}
+		}
+		c.R.Check(n > 0 && good, load.FuncName(ctor)+": patching applicator", c.pos(ctor.Pos()), "revisions are applied with the patching applicator (the patch carries the resourceVersion of the copy that was listed)", "the package reconciler's applicator is not resource.NewAPIPatchingApplicator: the updating applicator re-reads the object and overwrites it, the stale-list conflict is lost")
+	} else {
+		c.R.Unknown("manager.NewReconciler", "", "constructor not found")
+	}
+
 	c.R.Rule("R14.1", "deactivate others first: the current revision is applied only after every other active revision was applied Inactive; no failure is skipped", 7,
 		"two revisions of one package would be Active at once")
 	{
